@@ -17,7 +17,7 @@ TRANSLATORS = [tr_sqw.translate]
 RULE = (
     'same builder programs as C12 (subsets/orders of the five calls, repeated calls, three byte orders, BytesIO and real '
     'files, 0..1e5 pixels, chunk sizes around the pixel and the row count, 1..20 runs in direct and indirect mode) with '
-    'content variety: pixel values uniform / log-uniform over 1e-12..1e12 / exact float32 rounding midpoints / exactly '
+    'content variety: custom row selections (1..12 rows, custom stored units); every numeric field (pixel coordinates, efix, en, angles, histogram scales/ranges/offsets) in dtype float64/float32/int64/int32 independently of its unit, with values that are not whole numbers in the stored unit; pixel values uniform / log-uniform over 1e-12..1e12 / exact float32 rounding midpoints / exactly '
     'representable / integers; input units drawn from {1/angstrom,1/nm,10/angstrom,1/um,1/fm}, {meV,ueV,eV,J}, '
     '{count, mega count}, angles in deg or rad, lattice spacings in angstrom/nm/pm; strings of length 0..300 incl. empty. '
     'Every file is decoded by the independent Python decoder and compared with the supplied values in exact rational '
